@@ -96,6 +96,33 @@ def nontrivial(case, obs):
     return len(obs.split()) < len(names) and len(obs.split()) > 0   # something deleted, something kept
 
 
+def recent_offset_changes():
+    """(zone, days since its UTC offset last changed), most recent first - computed from the zone database, nothing hard-coded about dates"""
+    import datetime
+    try:
+        import zoneinfo
+    except Exception:
+        return []
+    now = datetime.datetime.now(datetime.timezone.utc)
+    out = []
+    for z in ('Pacific/Auckland', 'Australia/Sydney', 'Europe/Berlin', 'America/New_York', 'America/Santiago', 'Pacific/Chatham', 'Australia/Lord_Howe',
+              'Africa/Casablanca', 'America/Havana', 'America/Nuuk', 'America/Asuncion', 'Asia/Beirut'):
+        try:
+            tz = zoneinfo.ZoneInfo(z)
+        except Exception:
+            continue
+        cur = now.astimezone(tz).utcoffset()
+        for d in range(1, 250):
+            if (now - datetime.timedelta(days=d)).astimezone(tz).utcoffset() != cur:
+                out.append((z, d))
+                break
+    return sorted(out, key=lambda x: x[1])
+
+
+def rng_choice(run, l):
+    return run.rng.choice(l)
+
+
 def check(run):
     tmp = common.scratch_dir('c14')
     try:
@@ -113,6 +140,31 @@ def check(run):
         mo, io = common.read_lines_keep(tmp + '/m'), common.read_lines_keep(tmp + '/i')
         common.compare_stage(run, 'c14/survivors', cases, mo, io, nontrivial_fn=nontrivial,
                              rule='directory populations (own / sibling / prefix-sharing / unrelated names, files, dirs, symlinks, mtimes on both sides of the cut-off, maxAge 1..720 and, in every twelfth case, up to 2^31-1 h across the point (2562047 h) where hours stop fitting a time.Duration); a third of the cases are histories of 2-4 passes of ONE appender with files re-timed / written again / created between the passes, some with real waits so that the age of a file crosses the cut-off between two passes; observable = sorted survivors; non-trivial = at least one entry deleted and one kept')
+        # the same scan in processes whose time zone changed its UTC offset recently (daylight saving): maximum ages reaching back across the change,
+        # files within the hour around the cut-off. Ages are elapsed hours, whatever the wall clock did.
+        zones = recent_offset_changes()
+        zc = {}
+        for z, d in zones[:4]:
+            zl = []
+            for k in (1, 2, 4):
+                for rem in (0, 5):
+                    age = 24 * (d + k) + rem
+                    cut = -age * 3600
+                    fn = rng_choice(run, [b'app.log', b'svc-1.log'])
+                    ents = ['%s:0:%d' % (hx(fn + b'.202401010000%02d' % j), cut + o) for j, o in enumerate((121, 1800, 3500, 3700, 86400, -121, -1800, -3500, -3700, -86400, 10))]
+                    ents.append('%s:0:%d' % (hx(fn + b'.wf.20240101000000'), cut - 1800))
+                    zl.append('%s %d %s' % (hx(fn), age, ' '.join(ents)))
+            zc[z] = zl
+        for z, zl in zc.items():
+            common.write_lines(tmp + '/zc', zl)
+            okm, lm = common.run_model('c14', tmp + '/zc', tmp + '/zm')
+            rc, li = common.run_impl('c14', tmp + '/zc', tmp + '/zi', env={'TZ': z})
+            if not okm or rc != 0:
+                run.add_violation('harness-error', 'c14 (TZ=%s): model ok=%s impl rc=%s %s' % (z, okm, rc, li[-800:]), [li[-2000:]], no_input=True)
+                continue
+            common.compare_stage(run, 'c14/survivors-' + z, zl, common.read_lines_keep(tmp + '/zm'), common.read_lines_keep(tmp + '/zi'), nontrivial_fn=nontrivial,
+                                 rule='process time zone %s (UTC offset changed %d days ago), maximum ages reaching back across the change, files within the hour on either side of the cut-off; replay with TZ=%s' % (z, dict(zones)[z], z))
+        run.coverage['zones_with_recent_offset_change'] = zones[:4]
         ages = {}
         for c in cases:
             a = int(c.split()[1]); ages[a] = ages.get(a, 0) + 1
@@ -126,7 +178,11 @@ def replay(run, path):
     lines = [l[5:] for l in common.read_lines(path) if l.startswith('case ')]
     tmp = common.scratch_dir('c14r')
     common.write_lines(tmp + '/c', lines)
-    common.run_model('c14', tmp + '/c', tmp + '/m'); common.run_impl('c14', tmp + '/c', tmp + '/i')
+    env = None
+    for l in common.read_lines(path):     # a stream named c14/survivors-<zone> ran in that process time zone
+        if l.startswith('family c14/survivors-'):
+            env = {'TZ': l[len('family c14/survivors-'):].strip()}
+    common.run_model('c14', tmp + '/c', tmp + '/m'); common.run_impl('c14', tmp + '/c', tmp + '/i', env=env)
     rc = 0
     for c, m, i in zip(lines, common.read_lines_keep(tmp + '/m'), common.read_lines_keep(tmp + '/i')):
         print(c, '\n impl :', i, '\n model:', m)
